@@ -439,6 +439,17 @@ def option_cases():
         T("warc_parallel", ["-j", "0", "cat"], tr.WARC1, label="warc_parallel-j-0"), T("warc_parallel", ["-j", "1", "-z", "cat"], tr.WARC1 + tr.WARC2, label="warc_parallel-z"),
         T("warc_parallel", ["-j", "2", "-i", "{W}/missing", "--", "cat"], b"", label="warc_parallel-missing-input"), T("warc_parallel", ["-j"], b"", label="warc_parallel-j-missing"),
         T("warc_parallel", ["-j", "1", "true"], tr.WARC1, label="warc_parallel-child-ignores-input"), T("warc_parallel", ["-j", "1", "sh", "-c", "cat; echo garbage"], tr.WARC1, label="warc_parallel-child-garbage"),
+        # children that die early, answer too little or too much: the wrappers' error paths
+        T("cache", ["{HX}/vchild", "1", "exit:3", "nodrain"], b"a\nb\nc\n", label="cache-child-dies-early"),
+        T("cache", ["{HX}/vchild", "0", "sig:9", "nodrain"], b"a\nb\nc\n", label="cache-child-killed-at-once"),
+        T("cache", ["{HX}/vchild", "-1", "exit:0", "drain", "3"], b"a\nb\n", label="cache-child-surplus"),
+        T("foldfilter", ["-w", "5", "{HX}/vchild", "2", "exit:0", "drain"], b"hello world, again\nx\n", label="foldfilter-child-stops-answering"),
+        T("foldfilter", ["-w", "5", "{HX}/vchild", "-1", "exit:0", "drain", "2"], b"hello world\n", label="foldfilter-child-surplus"),
+        T("foldfilter", ["-w", "5", "{HX}/vchild", "1", "sig:11", "nodrain"], b"hello world\n", label="foldfilter-child-segv"),
+        T("b64filter", ["{HX}/vchild", "1", "exit:0", "nodrain"], b"YQpiCg==\nYw==\n", label="b64filter-child-dies-early"),
+        T("b64filter", ["{HX}/vchild", "-1", "exit:0", "drain", "1"], b"YQpiCg==\n", label="b64filter-child-surplus"),
+        T("b64filter", ["tr", "-d", "\\n"], b"YQpiCg==\nYw==\n", label="b64filter-child-eats-newlines"),
+        T("warc_parallel", ["-j", "2", "{HX}/vchild", "1", "exit:1", "nodrain"], tr.WARC1 + tr.WARC2, label="warc_parallel-child-dies"),
         T("base64_number", ["x"], b"YQ==\n", label="base64_number-extra-arg"),
         T("mmhsum", ["x"], b"", label="mmhsum-arg"),
     ]
